@@ -183,7 +183,9 @@ contract(F + "ItemGrader.standardize_cfn_return", props=["C01", "C16"],
 
 # ---------------------------------------------------------------------------------------------- AbstractGrader.__call__ (C01, C02, C11, C17)
 contract(F + "AbstractGrader.ensure_text_inputs", props=["C02"], trusted=True,
-    ensures=["same(result, student_input)",
+    ensures=["implies(is_str(student_input), same(result, student_input))",
+             # (voluptuous returns a validated copy of a list)
+             "implies(is_list(student_input), is_list(result) and len(result) == len(student_input) and forall(range(len(student_input)), lambda i: same(result[i], student_input[i])))",
              "(allow_lists and is_list(student_input) and forall(range(len(student_input)), lambda i: is_str(student_input[i]))) or (allow_single and is_str(student_input))"],
     exsures={"ConfigError": "True", "ValueError": "not allow_lists and not allow_single"}, modifies=[],
     note="A10 (voluptuous Schema(str) / Schema([str])): returns its argument iff it is a text / list of texts as the flags demand, else raises ConfigError; decided by the bounded tier")
